@@ -1,16 +1,306 @@
 /-
 C07 — managed buffer pool: exclusive ownership and conservation. Property theorems only.
+
+Everything is stated about `Compio.Pool.run` / `step` — the functions the line-protocol driver
+(`Drivers/C07.lean`) executes against the real compio code — for ALL event sequences (`List Ev`) from ANY
+initial pool (`World.init kind numBufs bufLen`, both the io_uring buffer ring and the fallback pool,
+every pool size the builder accepts). The only guard is `Ev.safe`: the program does not call the raw
+`BufferPool::take(id)` / `reset(id)` with ids of its own choosing (finding C07a, see `Cex/C07.lean`);
+managed reads, multishot streams, cancellations, early stream drops, handle drops in any order,
+`pop`, `release` with live handles and arbitrary (also ill-formed) event orders are all included.
 -/
 import Compio.Lemmas.Pool
 
 namespace Compio.Props.C07
 open Compio Compio.Pool
 
-/-- `num_of_bufs.next_power_of_two()` is a power of two between `n` and `2^15` for every pool size the
-    builder accepts without overflow -/
-theorem nextPow2_spec (n : Nat) (h1 : 1 ≤ n) (h2 : n ≤ 32768) :
-    ∃ j, j ≤ 15 ∧ nextPow2 n = 2 ^ j ∧ n ≤ nextPow2 n := by
-  obtain ⟨j, hj, he, hle, _, _⟩ := npow2Go_spec 15 0 n (by simpa using h2)
-  exact ⟨j, by omega, by simpa [nextPow2] using he, by simpa [nextPow2, he] using hle⟩
+/-- how many parties own buffer `id`: the pool's free list / the kernel's ring, an unprocessed
+    completion (guard), an operation, a user-held handle, or the deallocator (after release) -/
+def owners (w : World) (id : Nat) : Nat :=
+  w.pool.freeIds.count id + w.selIds.count id + w.opIds.count id + w.handles.count id + w.pool.freed.count id
+
+/-- a program: any events from any initial configuration, without raw `take` / `reset` -/
+structure Reachable (w : World) : Prop where
+  intro ::
+  ex : ∃ kind nb len w0 evs, World.init kind nb len = some w0 ∧ (∀ e ∈ evs, Ev.safe e = true) ∧ w = run w0 evs
+
+theorem reachable_inv {w : World} (h : Reachable w) : Inv w := by
+  obtain ⟨kind, nb, len, w0, evs, h0, hs, rfl⟩ := h.ex
+  exact (World.init_inv h0).1.run evs hs
+
+/-! ## 1. exactly one owner -/
+
+/-- every buffer id has exactly one owner at any time (and ids outside the pool have none) -/
+theorem exactly_one_owner {w : World} (h : Reachable w) (id : Nat) :
+    owners w id = if id < w.pool.n then 1 else 0 := by
+  have := (reachable_inv h).1.cnt id
+  simp only [World.cs, World.ch] at this
+  unfold owners
+  omega
+
+/-- two live handles never alias, and a held buffer is owned by nobody else: not free, not provided to
+    the kernel, not selected by a pending completion, not inside an operation, not freed -/
+theorem handles_never_alias {w : World} (h : Reachable w) :
+    w.handles.Nodup ∧ ∀ id ∈ w.handles, id < w.pool.n ∧ id ∉ w.pool.freeIds ∧ id ∉ w.selIds ∧
+      id ∉ w.opIds ∧ id ∉ w.pool.freed := by
+  constructor
+  · rw [List.nodup_iff_count]
+    intro a
+    have := exactly_one_owner h a
+    unfold owners at this
+    split at this <;> omega
+  · intro id hid
+    have hc : 0 < w.handles.count id := List.count_pos_iff.mpr hid
+    have := exactly_one_owner h id
+    unfold owners at this
+    by_cases hlt : id < w.pool.n
+    · rw [if_pos hlt] at this
+      refine ⟨hlt, ?_, ?_, ?_, ?_⟩ <;> (rw [← List.count_eq_zero]; omega)
+    · rw [if_neg hlt] at this; omega
+
+/-- `take` empties the slot: while the pool is alive the slot of a held (or op-held) buffer is empty -/
+theorem held_slot_empty {w : World} (h : Reachable w) (hr : w.pool.released = false) (id : Nat)
+    (hid : id ∈ w.handles ∨ id ∈ w.opIds) : w.pool.slots[id]? = some none := by
+  have hinv := (reachable_inv h).1
+  have hc := hinv.cnt id
+  have hpos : 0 < w.ch id := by
+    simp only [World.ch]
+    rcases hid with h1 | h1
+    · have := List.count_pos_iff.mpr h1; omega
+    · have := List.count_pos_iff.mpr h1; omega
+  have hlt := hinv.lt_of_ch hpos
+  rw [if_pos hlt] at hc
+  rw [hinv.slot hr id hlt, if_neg (by omega)]
+
+/-- the kernel (ring) / the free queue (fallback) only owns ids whose slot is present and that no
+    handle and no operation holds; and it owns each of them once -/
+theorem pool_owned_present_and_unheld {w : World} (h : Reachable w) (hr : w.pool.released = false) (id : Nat)
+    (hid : id ∈ w.pool.freeIds) :
+    w.pool.slots[id]? = some (some id) ∧ id ∉ w.handles ∧ id ∉ w.opIds ∧ id ∉ w.selIds ∧
+      w.pool.freeIds.count id = 1 := by
+  have hinv := (reachable_inv h).1
+  have hc := hinv.cnt id
+  have hpos : 0 < w.pool.freeIds.count id := List.count_pos_iff.mpr hid
+  have hlt := hinv.lt_of_free hid
+  rw [if_pos hlt] at hc
+  simp only [World.cs, World.ch] at hc
+  refine ⟨?_, ?_, ?_, ?_, by omega⟩
+  · rw [hinv.slot hr id hlt, if_pos (by simp only [World.cs]; omega)]
+  all_goals (rw [← List.count_eq_zero]; omega)
+
+/-- a buffer selected by a completion that nobody has taken yet keeps its slot (so `set_result` /
+    the stream adapter can adopt it) and is not provided to the kernel any more -/
+theorem selected_present {w : World} (h : Reachable w) (hr : w.pool.released = false) (id : Nat)
+    (hid : id ∈ w.selIds) : w.pool.slots[id]? = some (some id) ∧ id ∉ w.pool.freeIds ∧ id ∉ w.handles := by
+  have hinv := (reachable_inv h).1
+  have hc := hinv.cnt id
+  have hpos : 0 < w.cs id := List.count_pos_iff.mpr hid
+  have hlt := hinv.lt_of_cs hpos
+  rw [if_pos hlt] at hc
+  simp only [World.ch] at hc
+  refine ⟨?_, ?_, ?_⟩
+  · rw [hinv.slot hr id hlt, if_pos (by omega)]
+  all_goals (rw [← List.count_eq_zero]; omega)
+
+/-! ## 2. no panic, no overflow -/
+
+/-- `set_result`'s `expect("Buffer should not be in use")` never fires, and the `u16` addition
+    `tail + offset` of `add_buffer` never overflows -/
+theorem never_panics {w : World} (h : Reachable w) : w.dead = false ∧ w.pool.fault = false :=
+  ⟨(reachable_inv h).2.1, (reachable_inv h).1.shape.nofault⟩
+
+/-- the ring never holds more provided buffers than it has entries (`tail - head ≤ len`), the number
+    of buffers outside the pool accounts exactly for the difference -/
+theorem ring_never_overflows {w : World} (h : Reachable w) (hr : w.pool.released = false)
+    (hk : w.pool.kind = .ring) :
+    w.pool.head ≤ w.pool.tail ∧
+    w.pool.tail - w.pool.head + w.selIds.length + (w.opIds.length + w.handles.length) = w.pool.n := by
+  have hinv := (reachable_inv h).1
+  exact ⟨hinv.shape.ht, hinv.window_le hk hr⟩
+
+/-! ## 3. conservation -/
+
+/-- after all handles, operations and streams are dropped every buffer is back in the pool exactly
+    once: the free ids are a permutation of `0..n` -/
+theorem conservation {w : World} (h : Reachable w) (hr : w.pool.released = false)
+    (hh : w.handles = []) (ho : w.opIds = []) (hs : w.selIds = []) :
+    w.pool.freeIds.Perm (List.range w.pool.n) ∧ w.pool.slots = (List.range w.pool.n).map some := by
+  have hinv := (reachable_inv h).1
+  constructor
+  · rw [List.perm_iff_count]
+    intro a
+    have := hinv.cnt a
+    simp only [World.cs, World.ch, hh, ho, hs, List.count_nil, hinv.shape.nofreed hr] at this
+    rw [count_range]; omega
+  · apply List.ext_getElem?
+    intro j
+    by_cases hj : j < w.pool.n
+    · have := hinv.cnt j
+      simp only [World.cs, World.ch, hh, ho, hs, List.count_nil, hinv.shape.nofreed hr, if_pos hj] at this
+      rw [hinv.slot hr j hj, if_pos (by simp only [World.cs, hs, List.count_nil]; omega)]
+      simp [hj]
+    · have hl := hinv.shape.slen hr
+      rw [List.getElem?_eq_none (by omega), List.getElem?_eq_none (by simp; omega)]
+
+/-- fallback pool: every id is in the free queue exactly once -/
+theorem conservation_fallback {w : World} (h : Reachable w) (hr : w.pool.released = false)
+    (hk : w.pool.kind = .fb) (hh : w.handles = []) (ho : w.opIds = []) (hs : w.selIds = []) :
+    w.pool.queue.Perm (List.range w.pool.n) := by
+  have := (conservation h hr hh ho hs).1
+  rwa [freeIds_fb hr hk] at this
+
+/-- io_uring: every id is provided to the kernel exactly once, the ring is full again
+    (`tail - head = len`) and the tail has advanced by exactly the number of resets -/
+theorem conservation_ring {w : World} (h : Reachable w) (hr : w.pool.released = false)
+    (hk : w.pool.kind = .ring) (hh : w.handles = []) (ho : w.opIds = []) (hs : w.selIds = []) :
+    w.pool.window.Perm (List.range w.pool.n) ∧ w.pool.tail - w.pool.head = w.pool.n ∧
+    w.pool.tail = w.pool.n + w.pool.resets := by
+  have hinv := (reachable_inv h).1
+  have h1 := (conservation h hr hh ho hs).1
+  rw [freeIds_ring hr hk] at h1
+  have h2 := hinv.window_le hk hr
+  simp only [hh, ho, hs, List.length_nil, Nat.add_zero] at h2
+  exact ⟨h1, h2, hinv.shape.tailres hk⟩
+
+/-- at any time (not only at quiescence) the ring tail is `len` + the number of resets so far -/
+theorem ring_tail_counts_resets {w : World} (h : Reachable w) (hk : w.pool.kind = .ring) :
+    w.pool.tail = w.pool.n + w.pool.resets := (reachable_inv h).1.shape.tailres hk
+
+/-- the pool released while handles are alive: the pool frees what it owns, every handle frees its own
+    buffer when dropped; once all handles are gone every buffer has been deallocated exactly once -/
+theorem conservation_after_release {w : World} (h : Reachable w) (hr : w.pool.released = true)
+    (hh : w.handles = []) : w.pool.freed.Perm (List.range w.pool.n) := by
+  have hinv := reachable_inv h
+  have hsrc := hinv.2.2 hr
+  rw [List.perm_iff_count]
+  intro a
+  have := hinv.1.cnt a
+  simp only [World.cs, World.ch, World.selIds, World.opIds, hsrc, hh, List.flatMap_nil, List.count_nil,
+    freeIds_released hr] at this
+  rw [count_range]; omega
+
+/-- before the release nothing is ever deallocated -/
+theorem nothing_freed_while_alive {w : World} (h : Reachable w) (hr : w.pool.released = false) :
+    w.pool.freed = [] := (reachable_inv h).1.shape.nofreed hr
+
+/-! ## 4. exhaustion is an error, never a loop
+
+Every function of the model is structurally recursive (`ringMulti` on the number of provided buffers),
+so each event terminates; what remains is that the outcome of "no buffer" is the error. -/
+
+/-- fallback pool with an empty free queue: creating a managed read fails at once with `ResourceBusy`
+    and changes nothing -/
+theorem exhaustion_fallback_read (w : World) (i len pos : Nat) (s : Src) (hd : w.dead = false)
+    (hv : validSrc w i = some s) (hf : s.fut = none) (hst : s.strm = none) (hlen : len ≤ 4096)
+    (hk : w.pool.kind = .fb) (hq : w.pool.queue = []) :
+    step w (.read i len pos) = (w, .err true "busy") := by
+  have hc : (s.fut.isSome || s.strm.isSome || decide (4096 < len)) = false := by
+    simp [hf, hst]; omega
+  simp [step, hd, evRead, hv, hc, hk, Pool.ctrlPop, hq]
+
+/-- io_uring with nothing provided (`head = tail`): a managed read on a source with data completes
+    with `ResourceBusy`, the data stays in the source, and awaiting it reports the error -/
+theorem exhaustion_ring_read (w : World) (i len : Nat) (s : Src) (hd : w.dead = false)
+    (hv : validSrc w i = some s) (hf : s.fut = none) (hst : s.strm = none) (hlen : len ≤ 4096)
+    (hkind : s.kind = .pipe) (hdata : 0 < s.avail)
+    (hk : w.pool.kind = .ring) (he : w.pool.head = w.pool.tail) :
+    ∃ w1, step w (.read i len 0) = (w1, .started) ∧ w1.pool = w.pool ∧
+      (∀ s1, w1.srcs[i]? = some s1 → s1.avail = s.avail) ∧
+      ∃ w2, step w1 (.await i) = (w2, .err false "busy") ∧ w2.pool = w.pool := by
+  obtain ⟨hr, hget⟩ := validSrc_some hv
+  have hi : i < w.srcs.length := by
+    rcases Nat.lt_or_ge i w.srcs.length with h | h
+    · exact h
+    · rw [List.getElem?_eq_none h] at hget; cases hget
+  have hc : (s.fut.isSome || s.strm.isSome || decide (4096 < len)) = false := by
+    simp [hf, hst]; omega
+  have hsel : w.pool.kselect = (none, w.pool) := by simp [Pool.kselect, he]
+  let f1 : Fut := { cap := len, pos := 0, pollFirst := s.wantsPollFirst, done := some (.busy, false), buf := none }
+  refine ⟨w.setSrc i { s with fut := some f1 }, ?_, rfl, ?_, ?_⟩
+  · simp [step, hd, evRead, hv, hc, hk, kick, hi, hkind, ringSingle, Src.peek, hdata, adoptFut, hsel, World.setSrc, f1]
+  · intro s1 h1
+    simp [World.setSrc, hi] at h1
+    rw [← h1]
+  · let s1 : Src := { s with fut := some f1 }
+    have hstep : step (w.setSrc i s1) (.await i) = finishFut (w.setSrc i s1) i s1 f1 .busy false false := by
+      simp [step, hd, evAwait, validSrc, hr, World.setSrc, hi, s1, f1]
+    refine ⟨(finishFut (w.setSrc i s1) i s1 f1 .busy false false).1, ?_, ?_⟩
+    · rw [hstep]; rfl
+    · rfl
+
+/-! ## 5. ring index arithmetic -/
+
+/-- the rounding of `num_of_bufs`: a power of two between the request and `2^15` -/
+theorem ring_len_power_of_two (nb : Nat) (h1 : 1 ≤ nb) (h2 : nb ≤ 32768) :
+    ∃ j, j ≤ 15 ∧ nextPow2 nb = 2 ^ j ∧ nb ≤ nextPow2 nb ∧ nextPow2 nb ∣ 65536 := by
+  obtain ⟨j, hj, hp, hle⟩ := nextPow2_pow nb h2
+  have _ := h1
+  exact ⟨j, hj, hp, by rw [hp]; exact hle, pow_dvd_65536 hj hp⟩
+
+/-- with `len` dividing `2^16` the index computed from the wrapped `u16` tail is the index of the
+    unbounded tail: wrap-around does not make the index jump -/
+theorem ring_index_wraparound (t off len : Nat) (hd : len ∣ 65536) :
+    ringIdx (t % 65536) off len = (t + off) % len := by
+  unfold ringIdx
+  rw [Nat.add_mod, Nat.mod_mod_of_dvd _ hd, ← Nat.add_mod]
+
+/-- for all tails `t` and all `k < len` outstanding provides starting at `h = t - k`, the entry written
+    by the next provide (`off = 0`) is none of the entries still provided to the kernel -/
+theorem ring_index_never_hits_provided (t k len : Nat) (hd : len ∣ 65536) (hk : k < len) (hkt : k ≤ t) :
+    ∀ j, j < k → ringIdx (t % 65536) 0 len ≠ (t - k + j) % 65536 % len := by
+  intro j hj
+  rw [ring_index_wraparound t 0 len hd, Nat.mod_mod_of_dvd _ hd, Nat.add_zero]
+  exact fun e => mod_ne_of_lt (t - k + j) t len (by omega) (by omega) e.symm
+
+/-- on every reachable state: when a `BufferRef` or a guard is reset, the ring entry it writes is not
+    one the kernel has yet to consume, whatever the (wrapped) value of the tail -/
+theorem reset_never_overwrites_provided {w : World} (h : Reachable w) (hr : w.pool.released = false)
+    (hk : w.pool.kind = .ring) (hout : 0 < w.selIds.length + (w.opIds.length + w.handles.length)) :
+    ∀ j, j < w.pool.tail - w.pool.head →
+      ringIdx w.pool.tail16 0 w.pool.n ≠ (w.pool.head + j) % 65536 % w.pool.n := by
+  have hinv := (reachable_inv h).1
+  have hw := hinv.window_le hk hr
+  have hht := hinv.shape.ht
+  intro j hj
+  have := ring_index_never_hits_provided w.pool.tail (w.pool.tail - w.pool.head) w.pool.n hinv.shape.dvd
+    (by omega) (by omega) j hj
+  rwa [show w.pool.tail - (w.pool.tail - w.pool.head) = w.pool.head by omega] at this
+
+/-- the provided window after a reset is the old window plus the reset id at the end (FIFO), for any
+    tail including across the `u16` wrap -/
+theorem reset_appends_to_window {w : World} (h : Reachable w) (hr : w.pool.released = false)
+    (id : Nat) (hid : id ∈ w.handles) :
+    (w.pool.dropRef id).freeIds = w.pool.freeIds ++ [id] := by
+  have hinv := (reachable_inv h).1
+  have hpos : 0 < w.ch id := by
+    have := List.count_pos_iff.mpr hid
+    simp only [World.ch]; omega
+  exact (hinv.dropHeld hr hpos (ch' := fun a => w.ch a - ind id a)
+    (lh' := w.opIds.length + w.handles.length - 1)
+    (by
+      intro a
+      by_cases ha : a = id
+      · subst ha; rw [ind_self]; omega
+      · rw [ind_ne ha]; omega)
+    (by have := List.length_pos_of_mem hid; omega)).2.2.2.1
+
+/-! ## non-vacuity -/
+
+/-- a concrete program on the ring (3 buffers requested, rounded to 4): a single-shot read, a
+    multishot stream with a guard left pending, an early stream drop -/
+def demo : List Ev :=
+  [.src .pipe 0, .write 0 20, .read 0 0 0, .await 0, .open 0 0, .next 0, .next 0, .dstream 0, .drop 0]
+
+example : (World.init .ring 3 8).isSome = true := by decide
+example : ∀ e ∈ demo, Ev.safe e = true := by decide
+
+/-- the demo program ends with buffer 1 in user hands and 0, 2, 3 provided again in that order -/
+example : ((World.init .ring 3 8).map fun w => ((run w demo).handles, (run w demo).pool.window, (run w demo).pool.tail)) =
+    some ([1], [3, 2, 0], 6) := by decide
+
+example : ((World.init .fb 2 8).map fun w =>
+    (step (run w [.src .pipe 0, .pop, .pop]) (.read 0 0 0)).2) = some (.err true "busy") := by decide
+
+example : ringIdx (65535 % 65536) 0 4 = 3 ∧ ringIdx (65536 % 65536) 0 4 = 0 := by decide
 
 end Compio.Props.C07
